@@ -214,3 +214,36 @@ def is_len_minus_one(fn: FuncInfo, e: ast.AST, of: Set[str]) -> bool:
     if isinstance(e, ast.Name):
         return any(isinstance(d, ast.AST) and direct(d) for d in local_defs(fn).get(e.id, []))
     return False
+
+
+
+def passthrough_helpers(cls: ClassInfo) -> Set[str]:
+    """methods of the class (or its bases) that do nothing but call their first parameter with the keyword arguments they were
+    given (possibly inside a `with` block): `def h(function, **kwargs): with …: return function(**kwargs)`"""
+    out: Set[str] = set()
+    for k in [cls] + list(cls.mro):
+        for name, m in k.methods.items():
+            ps = [a.arg for a in m.node.args.args if a.arg not in ("self", "cls")]
+            kw = m.node.args.kwarg.arg if m.node.args.kwarg else None
+            if len(ps) != 1 or kw is None:
+                continue
+            rets = [r for r in own_nodes(m.node) if isinstance(r, ast.Return) and r.value is not None]
+            if len(rets) == 1 and isinstance(rets[0].value, ast.Call) and isinstance(rets[0].value.func, ast.Name) and rets[0].value.func.id == ps[0] \
+                    and not rets[0].value.args and len(rets[0].value.keywords) == 1 and rets[0].value.keywords[0].arg is None \
+                    and unparse(rets[0].value.keywords[0].value) == kw:
+                out.add(name)
+    return out
+
+
+def user_type_calls(fn: FuncInfo, attr: str = "_type_") -> List[ast.Call]:
+    """calls in fn that run `self.<attr>(…)`: directly, or through a pass-through helper of the class"""
+    res = []
+    helpers = passthrough_helpers(fn.cls) if fn.cls is not None else set()
+    for c in own_calls(fn):
+        f = c.func
+        if isinstance(f, ast.Attribute) and f.attr == attr and isinstance(f.value, ast.Name) and f.value.id == "self":
+            res.append(c)
+        elif isinstance(f, ast.Attribute) and f.attr in helpers and isinstance(f.value, ast.Name) and f.value.id in ("self", fn.cls.name if fn.cls else "") \
+                and c.args and unparse(c.args[0]) == f"self.{attr}":
+            res.append(c)
+    return res
